@@ -1,5 +1,6 @@
 import Cjet.Lemmas.DaemonC15Frame
 import Cjet.Unwind.Ladders
+import Cjet.Props.Startup
 /-!
 # C15 — any single allocation failure is survived without crash, leak or corruption
 
@@ -147,5 +148,11 @@ def ladderAddDouble : Ladder RA LA :=
     chain := (ladderAdd true).chain ++ [(.caller, [Act.release .elem])] }
 
 example : audit ladderAddDouble = false := by decide
+
+/-! ### the goto ladders of run_io_only_local / run_io_all_interfaces, label for label -/
+
+theorem startup_goto_ladders_audit : type_of% @Cjet.Props.Startup.goto_ladders_audit := @Cjet.Props.Startup.goto_ladders_audit
+theorem startup_failure_releases_all : type_of% @Cjet.Props.Startup.startup_failure_releases_all := @Cjet.Props.Startup.startup_failure_releases_all
+theorem startup_releases_all_listeners : type_of% @Cjet.Props.Startup.startup_releases_all_listeners := @Cjet.Props.Startup.startup_releases_all_listeners
 
 end Cjet.Props.C15
